@@ -1062,8 +1062,39 @@ def plan_C12(tier):
     return qs, info
 
 
+def wrong_op_queries(propset, tier):
+    """protocol-VIOLATING scripts on concrete shapes (mode ANY): one op of the full traversal replaced by a wrong one
+    (enter of the other kind, leave of the other kind, raw / next inserted). Every call must still terminate within the
+    linear bound (C16) and stay memory safe (C01)."""
+    from . import shapes
+    swap = {"GO": ["GA"], "GA": ["GO"], "LO": ["LA"], "LA": ["LO"], "N": ["GO", "GA", "RAW"]}
+    qs = []
+    seen = set()
+    for root in (1, 2):
+        nodes = shapes.gen_shapes(root, 5 if root == 1 else 4, ("T", "S1"), 3) + shapes.chain_shapes(root, 3, True)
+        if tier != "quick":
+            nodes += shapes.gen_shapes(root, 7 if root == 1 else 6, ("T", "S1"), 3) + shapes.chain_shapes(root, 4, True)
+        for node in nodes:
+            full = shapes.full_script(node)
+            for i, op in enumerate(full):
+                for w in swap.get(op, []):
+                    s = full[:i] + [w] + full[i + 1:]
+                    key = (node.label(), tuple(s))
+                    if key in seen:
+                        continue
+                    seen.add(key)
+                    q = shape_script_query(propset, node, s, "wrong@%d" % i, root, extra={"MODE": 3},
+                                           checks="mem" if propset == 1 else "func")
+                    q.name = "wrongop.p%d.%s.@%d.%s" % (propset, node.label(), i, "-".join(s))
+                    q.tags.update({"family": "H-ANY", "variant": "op %d replaced by %s" % (i, w)})
+                    q.group = "h_script.wrongop.p%d" % propset
+                    qs.append(q)
+    return _sparse_witness(qs, 8)
+
+
 def plan_C16(tier):
     qs = []
+    qs += wrong_op_queries(16, tier)
     ns = (2, 4, 5, 6) if tier == "quick" else range(2, 13)
     for n in ns:
         for root in (1, 2):
@@ -1245,6 +1276,23 @@ def deep_unbalanced_query(k, timeout=2400):
     return q
 
 
+def deep_object_query(k, D, prop="C01", checks="mem", timeout=3000):
+    """k nested objects ({"":{"":...}}), state array of exactly D entries: nesting limit / state indexing at large D"""
+    b = [0x40] + [0x14, 0x00, 0x40] * (k - 1) + [0x41] * k
+    n = len(b)
+    q = doc_query(prop, 1, n, D, 1, checks=checks, timeout=timeout)
+    q.defines.update({"SK_LEN": n, "SK_BYTES": ",".join(str(x) for x in b), "SK_MASK": ",".join(["1"] * n), "WIT_VALID": 1 if k <= D else 0})
+    q.name = "deepobject.k%d.D%d" % (k, D)
+    q.array_fs = True
+    q.extra_flags += ["--max-field-sensitivity-array-size", str(n + 8)]
+    q.unwind = max(n, D) + 8
+    q.unwindset = {"_advance_parsing.0": n + 2, "_parse_integer.0": 9, "memcmp.0": 4}
+    q.mem_gb = 8
+    q.tags.update({"family": "H-DEEP", "what": "%d nested objects, max_depth %d (state array of exactly that many entries), all memory checks" % (k, D)})
+    q.group = "h_doc.deep"
+    return q
+
+
 def plan_C01_full(tier):
     qs, info = plan_C01(tier)
     # API-only: arbitrary bytes, every op executed unconditionally, all memory checks, from a garbage struct through init
@@ -1279,6 +1327,8 @@ def plan_C01_full(tier):
         q.name += ".D%d" % D
         qs.append(q)
     qs.append(leaf_query("check_boundary"))
+    if tier != "quick":
+        qs += wrong_op_queries(1, "quick")
     info["rule"] += " H-SCRIPT (mode ANY): arbitrary bytes, ops executed unconditionally, all memory checks. H-LEAF: _check_boundary for all 2^192 triples."
     return qs, info
 
